@@ -334,6 +334,15 @@ class C17(Prop):
             out.append({"stream": "parse_ini", "tag": "rnd:parse_ini",
                         "input": {"lines": lines, "eq": eq, "comments": rng.choice([["#", "//"], ["#", "//"], [";"], []]),
                                   "concat": rng.choice(["\x16", "\x16", "", "+"])}})
+        # systematic: 'KEY+=text' appends to whatever value KEY has - also a falsy one (0, 0.0, the empty text)
+        for _ in range(30 if quick else 800):
+            key = rng.choice(["a", "k1", "Ab", "x"])
+            first = rng.choice(["0", "0.0", "", '""', "-0.0", "00", " 0 ", "+0"])
+            more = rng.choice(["7", "x", "/usr/bin", "0", ".5"])
+            lines = [rng.choice(["b=1", "# c", ""]), key + "=" + first, rng.choice(["", "b=2", "// c"]), key + "+=" + more]
+            lines = [l for l in lines if l != "" or rng.random() < 0.5]
+            out.append({"stream": "parse_ini", "tag": "sys:append-to-falsy",
+                        "input": {"lines": lines, "eq": "=", "comments": ["#", "//"], "concat": rng.choice(["\x16", "\x16", "+"])}})
         for c in [c for c in out if c["stream"] == "parse_ini"][-(250 if quick else 5000):]:
             lines = [l for l in c["input"]["lines"]]
             if c["input"]["eq"] != "=" or any("\n" in l or "\r" in l for l in lines):
